@@ -30,31 +30,50 @@ def run(res, tier):
         with open(gf, "w") as f:
             for x in g["vout"]:
                 f.write(json.dumps(x) + "\n")
-        tr = os.path.join(tmp, "timed.ndjson")
-        summ = os.path.join(tmp, "timed.sum.json")
-        for attempt in range(3):
-            p = run_driver(vdrive, ["timed-run", "-in", gf, "-out", tr, "-summary", summ], timeout=1800)
-            s = json.load(open(summ))
-            if s["errors"]:
-                raise Inconclusive("timed-run errors: " + "; ".join(s["errors"][:3]))
-            if s["max_sleep_overshoot_ms"] <= 100:
-                break
-        else:
-            raise Inconclusive(f"timed runs disturbed: a 5 ms sleep overshot by {s['max_sleep_overshoot_ms']} ms in three attempts")
-        n, bad, st = validate_traces(tmp, tr, "timed_traces.ndjson", "L4TimedTrace.tla", "L4TimedTrace.cfg", max_shards=4)
+        def timed_once(k):
+            tr = os.path.join(tmp, f"timed{k}.ndjson")
+            summ = os.path.join(tmp, f"timed{k}.sum.json")
+            for attempt in range(3):
+                run_driver(vdrive, ["timed-run", "-in", gf, "-out", tr, "-summary", summ], timeout=1800)
+                s = json.load(open(summ))
+                if s["errors"]:
+                    raise Inconclusive("timed-run errors: " + "; ".join(s["errors"][:3]))
+                if s["max_sleep_overshoot_ms"] <= 100:
+                    break
+            else:
+                raise Inconclusive(f"timed runs disturbed: a 5 ms sleep overshot by {s['max_sleep_overshoot_ms']} ms in three attempts")
+            n, bad, st = validate_traces(tmp, tr, "timed_traces.ndjson", "L4TimedTrace.tla", "L4TimedTrace.cfg", max_shards=4)
+            traces = {}
+            for line in open(tr):
+                t = json.loads(line)
+                traces[t["id"]] = t
+            found = {}
+            for b in bad:
+                t = traces[b["id"]]
+                found[(b["id"], tuple(sorted(b["clauses"])))] = t
+            return s, n, found
+
+        # Real time on a shared machine: a scenario is reported only when the same clauses fail for it in three runs of the grid
+        # one after the other (a defect of the code fails every time; a goroutine that was not scheduled in time does not);
+        # what fails once or twice is counted as disturbed, and too many of those make the check inconclusive.
+        s, n, found = timed_once(0)
+        first_found = dict(found)
+        runs = 1
+        while found and runs < 3:
+            _, _, again = timed_once(runs)
+            found = {k: v for k, v in found.items() if k in again}
+            runs += 1
+        disturbed = len(first_found) - len(found)
+        if disturbed > 5:
+            raise Inconclusive(f"timed runs disturbed: {disturbed} scenarios failed a clause once or twice but not three times: " + "; ".join(k[0] for k in list(first_found)[:5]))
         cov["traces_validated_against_impl"] += n
-        cov["timed_runs"] = dict(scenarios=s["scenarios"], max_sleep_overshoot_ms=s["max_sleep_overshoot_ms"],
+        cov["timed_runs"] = dict(scenarios=s["scenarios"], max_sleep_overshoot_ms=s["max_sleep_overshoot_ms"], grid_runs=runs, disturbed_not_reproduced=disturbed,
                                  grid="transport x {silent,trickle,flood,slowhandler} x timeout(ms) x wall-clock phase(ms), enumerated by TLC from L4TimedGrid")
         cov["samples"] += s["samples"][:2]
-        traces = {}
-        for line in open(tr):
-            t = json.loads(line)
-            traces[t["id"]] = t
-        for b in bad:
-            t = traces[b["id"]]
-            sig = "timed:" + t["transport"] + ":" + "+".join(sorted(c.split()[0] for c in b["clauses"]))
-            res.violation(sig, "; ".join(b["clauses"]) + f" (trace {b['id']})", t)
-    res.assumptions += ["scaled real time: early = more than 2 ms before the timeout, late = more than max(250 ms, 25%) after it; runs are repeated when a calibrated sleep overshoots by more than 100 ms",
+        for (tid, clauses), t in found.items():
+            sig = "timed:" + t["transport"] + ":" + "+".join(sorted(c.split()[0] for c in clauses))
+            res.violation(sig, "; ".join(clauses) + f" (trace {tid}; failed in {runs} runs of the grid in a row)", t)
+    res.assumptions += ["scaled real time: early = more than 2 ms before the timeout, late = more than max(250 ms, 25%) after it; runs are repeated when a calibrated sleep overshoots by more than 100 ms; a timed scenario is reported only when it fails the same clauses in three runs of the grid in a row",
                         "times are taken before the connection is handed to the server and after a read returns (one-sided)"]
     cov["checker_cmd"] = "tlc L4Router_MC/L4Timed + vdrive router-replay/router-random/timed-run + tlc L4RouterTrace/L4TimedTrace"
 
